@@ -336,6 +336,20 @@ theorem lc_own_fn_once {s : LC.St} (h : LC.Reach s) (r : LRet) (hr : r ∈ s.ret
   have := (LC.inv_reach h).rets r hr
   exact ⟨this.1, this.2.1⟩
 
+/-- … and during a call that is still in progress the caller's own function has run at most once — exactly once as
+soon as it has started (rows `f1` … `px`). -/
+theorem lc_own_fn_at_most_once {s : LC.St} (h : LC.Reach s) (t : Tid) (ht : s.pc t ≠ .idle) :
+    s.runs t ≤ 1 ∧ ((s.pc t).ranOnce = true → s.runs t = 1) := by
+  have hi := LC.inv_reach h
+  have h0 := hi.notrun t
+  have h1 := hi.ranonce t
+  revert ht h0 h1
+  cases s.pc t <;> simp [LC.PC.notRun, LC.PC.ranOnce] <;> omega
+
+/-- inhabited: after 8 steps of its first call goroutine 0 is inside its function, which has run once. -/
+example : (LC.run LC.init (List.replicate 1 (0,3) ++ List.replicate 7 (0,0))).map (fun s => (s.pc 0, s.runs 0))
+    = some (LC.PC.f1, 1) := by decide
+
 /-- a step is disabled only at the mutex or at a wait group -/
 theorem lc_blocked_cases {s : LC.St} {t : Tid} {x : Nat} (hb : LC.step s t x = none) :
     ((s.pc t = .b0 ∨ s.pc t = .e0) ∧ s.lock ≠ none) ∨ (s.pc t = .b3 ∧ s.wg (s.reg t) ≠ 0) := by
@@ -463,6 +477,14 @@ theorem rm_same_instance {s : RM.St} (h : RM.Reach s) (r : RRet) (hr : r ∈ s.r
     s.ncreate r.key = 1 ∧ r.val = s.inst r.key := by
   have := (RM.inv_reach h).retsI r hr hv
   exact ⟨this.1, this.2.symm⟩
+
+/-- **… to everyone**: any two calls on the same key that returned a resource returned the same one — whichever way
+each got it (own flight, shared flight, re-check inside the flight, hit in front of the flight). -/
+theorem rm_everyone_same {s : RM.St} (h : RM.Reach s) (r q : RRet) (hr : r ∈ s.rets) (hq : q ∈ s.rets)
+    (hk : r.key = q.key) (hrv : r.val ≠ 0) (hqv : q.val ≠ 0) : r.val = q.val := by
+  have a := (rm_same_instance h r hr hrv).2
+  have b := (rm_same_instance h q hq hqv).2
+  rw [a, b, hk]
 
 /-- what a `GetResource` call returns is what the single execution of the closure for its flight returned (its
 own, or the one it shared), and that flight was for its key. -/
